@@ -138,7 +138,7 @@ def campaign(chk, fam, cases, proof_ok, proof_detail, signature_of=None, label="
     """run all cases; classify; report.  cases: iterable of lists of op lines.
     With batch > 1 several cases are concatenated (separated by a `reset` op) into one run of
     both sides; a batch that shows any difference is re-run case by case."""
-    st = {"corr": None, "thm": None, "found": False}
+    st = {"corr": None, "thm": None, "found": False, "singles": 0}
     if getattr(chk, "model_untrusted", False):
         fam.model_trusted = False
 
@@ -179,7 +179,16 @@ def campaign(chk, fam, cases, proof_ok, proof_detail, signature_of=None, label="
             if judge(fam, joined) is None:
                 chk.cov["traces_validated_against_impl"] += len(b)
                 continue
+            if st["singles"] > 600 and st["corr"] is not None and not st["found"]:
+                # the correspondence is known to be broken and hundreds of cases re-run one by one showed nothing but
+                # model differences: keep searching for a failing input at batch granularity only (one run per batch)
+                chk.bump("batch-granularity-search")
+                handle(joined, True)
+                if len(chk.violations) >= 3:
+                    break
+                continue
             alone = [handle(c, True) for c in b]
+            st["singles"] += len(b)
             if all(alone) and len(chk.violations) < 3:
                 # no case fails by itself: the difference needs the cases one after another in one process
                 # (state that survives `reset`, e.g. a static object) — the joined run is the failing input
